@@ -40,6 +40,11 @@ def parent_array(rng, shape: str, n: int) -> np.ndarray:
         pid[1:] = np.arange(n - 1)
     elif shape == "star":
         pid[1:] = 0
+    elif shape == "hub":  # a stem, then one interior node carrying all the rest
+        pid[1] = 0
+        pid[2:] = 1
+        if n > 4:
+            pid[n - 1] = n - 2  # (one of the hub's children continues)
     elif shape == "caterpillar":
         spine = max(1, n // 2)
         pid[1:spine] = np.arange(spine - 1)
